@@ -215,7 +215,9 @@ pub fn case_completeness(bytes: &[u8], ctx: &mut Ctx) -> CaseResult {
         hex(&tree.get_root()),
         hex(&root)
     );
-    let queries = gen_queries(&mut s, &g);
+    let mut queries = gen_queries(&mut s, &g);
+    // the root itself as an item (a value that appears inside every proof's verification)
+    queries.push((QKind::Special, root));
     let mut f = Fnv::new();
     for l in &g.set {
         f.write(l);
@@ -333,6 +335,7 @@ pub fn case_completeness(bytes: &[u8], ctx: &mut Ctx) -> CaseResult {
             QKind::Prefix(_) => ctx.label(if member { "q:member:shares-k-bits" } else { "q:non-member:shares-k-bits" }),
             QKind::Random => ctx.label("q:random"),
             QKind::Base => ctx.label(if member { "q:base:member" } else { "q:base:non-member" }),
+            QKind::Special => ctx.label(if member { "q:special:member" } else { "q:special:non-member" }),
         }
         if pt.depth() >= 255 {
             ctx.label("cmp:proof-depth>=255");
